@@ -11,8 +11,8 @@ RULE = ("kinds: step (real integrator on y'=lambda*y / damped 2x2 blocks with th
         "closed left half-plane incl. the imaginary axis; no eigenvalue of A with Re<=0 other than 0); non-trivial = step accepted; distinct by "
         "(method, |z| decade, arg class, sign of h, dtype)")
 ASSUMPTIONS = ["tolerances are scaled to 1e3*eps*max(1,|lambda|) so that the Newton iteration can converge; comparisons allow K=50 times the induced error h*tol*sum|b|"]
-FLOORS = {"quick": {"accepted_steps": 300, "accepted_steps_z_ge_1e4": 60, "tableau_points": 2000, "usertol_steps_h_ge_1e3": 40, "chained_steps": 150},
-          "thorough": {"accepted_steps": 3000, "accepted_steps_z_ge_1e4": 500, "tableau_points": 20000, "usertol_steps_h_ge_1e3": 400, "chained_steps": 150}}
+FLOORS = {"quick": {"accepted_steps": 300, "accepted_steps_z_ge_1e4": 60, "tableau_points": 2000, "usertol_steps_h_ge_1e3": 40, "chained_steps": 150, "own_controller_steps": 60, "own_controller_steps_after_a_rejected_attempt": 12},
+          "thorough": {"accepted_steps": 3000, "accepted_steps_z_ge_1e4": 500, "tableau_points": 20000, "usertol_steps_h_ge_1e3": 400, "chained_steps": 150, "own_controller_steps": 400, "own_controller_steps_after_a_rejected_attempt": 80}}
 K = 5.0
 
 
@@ -38,6 +38,12 @@ def gen_cases(tier, seed):
             # the same z reached with an enormous step and a tiny rate, under ordinary user tolerances (not scaled to lambda)
             cases.append(dict(kind="step", method=name, logz=float(rng.uniform(0, 6)), arg=float(rng.choice([180.0, 135.0, 108.0, 252.0])), hsign=int(rng.choice([-1, 1])),
                               hmag=float(10 ** rng.uniform(1, 16)), dtype="float64", usertol=float(rng.choice([1e-6, 1e-9])), pseed=int(rng.integers(1 << 30)), cost=3))
+        for r in range(max(6, reps // 3)):
+            # the library's OWN step controller left in place (rejections by the embedded estimate, retries): whatever step is finally handed back
+            # - shortened or not - is a step of the stability function in the requested direction of time
+            cases.append(dict(kind="step", method=name, logz=float(rng.uniform(-0.5, 5)), arg=float(rng.choice([180.0, 180.0, 135.0, 225.0, 100.0])), hsign=int(rng.choice([-1, 1, -1])),
+                              hmag=float(10 ** rng.uniform(-2, 1)), dtype="float64", usertol=float(rng.choice([1e-6, 1e-8, 1e-10])), own_controller=True,
+                              pseed=int(rng.integers(1 << 30)), cost=4))
         for r in range(reps):
             logz = float(rng.uniform(-3, 8))
             ang = float(rng.choice([180.0, 180.0, 90.0, 270.0, float(rng.uniform(90, 270))]))
@@ -126,7 +132,10 @@ def run_case(spec):
         tol = usertol
         feats["tolerance"] = "user"
     intg = cls(y0.shape, dtype=dt, rtol=tol, atol=tol)
-    util.passthrough_adaptation(intg)
+    if spec.get("own_controller"):
+        feats["controller"] = "own"
+    else:
+        util.passthrough_adaptation(intg)
     slog = StepLog(intg)
     rhs = de.DiffRHS(f)
     rhs.hook_jacobian_call(jac)
@@ -142,6 +151,13 @@ def run_case(spec):
                 rec.sample = {"spec": spec, "raised": type(e).__name__}
             return rec.out()
         hacc = float(dT)
+        if spec.get("own_controller"):
+            rec.bump("own_controller_steps")
+            if len(slog.attempts) > 1 + link:
+                rec.bump("own_controller_steps_after_a_rejected_attempt")
+            if hacc * h <= 0:
+                rec.violate("stiff_decay_growth", "accepted_step_runs_against_the_requested_direction_of_time", fl, requested=float(h), accepted=hacc)
+                return rec.out()
         zacc = complex(hacc * a, hacc * b)
         y1 = (y0 + dY).astype(np.longdouble)
         ratio = float(np.sqrt(np.sum(y1 ** 2)) / np.sqrt(np.sum(y0.astype(np.longdouble) ** 2)))
